@@ -216,7 +216,14 @@ func (p *Proxy) call(ctx context.Context, m *GoMethod, args ...Object) Object {
 		return ArgsErrorf("args error: %s() requires %d arguments, but %d were given",
 			methodFullName, minArgs, len(inputs))
 	}
-	outputs := m.method.Func.Call(inputs)
+	var outputs []reflect.Value
+	if isVariadic && len(inputs) == numIn {
+		// The variadic parameter was given (as a list): it has been converted
+		// to the slice itself, so it must not be wrapped in another slice.
+		outputs = m.method.Func.CallSlice(inputs)
+	} else {
+		outputs = m.method.Func.Call(inputs)
+	}
 	if len(outputs) == 0 {
 		return Nil
 	}
